@@ -50,8 +50,10 @@ def run_one(m, prop):
         vd = os.path.join(tmp, "verif")
         os.makedirs(vd)
         shutil.copy(os.path.join(HERE, "known_findings.json"), vd)
-        p = subprocess.run([BIN, "-property", prop, "-tier", "quick", "-repo", repo, "-verif", vd],
-                           capture_output=True, text=True)
+        cmd = [BIN, "-property", prop, "-tier", "quick", "-repo", repo, "-verif", vd]
+        if m.get("goarch"):
+            cmd += ["-goarch", m["goarch"], "-goarm", m.get("goarm", "")]
+        p = subprocess.run(cmd, capture_output=True, text=True)
         out = p.stdout + p.stderr
         if p.returncode != 1 or "VIOLATION property=%s" % prop not in out:
             return m["id"], "MISSED", "exit=%d; check did not fire" % p.returncode
